@@ -12,7 +12,7 @@ NOTE = ("Trusted base: go/types, golang.org/x/tools v0.29.0 (go/packages, go/cfg
 # property -> (technique, text, design_ref)
 CLAIMED = {
 
-    "C01": ("static analysis: who-may-write/who-may-call over the type-checked program, lifetime-switch case regions, condition-fact dominance in eager creation, key-literal completeness, family fan-out agreement",
+    "C01": ("static analysis: who-may-write/who-may-call over the type-checked program, lifetime-restricted control-flow views (switch or if-chain), condition-fact dominance in eager creation, key-literal completeness, family fan-out agreement",
             "Decides the structural conditions singleton-ness rests on for every path and call site: the table has one writer, the singleton clause of resolution cannot construct, constructors run only from three call sites under the right guards, Build returns only after a checked eager creation over the topological order, the graph sees every dependency, nothing memoises outside setInstance. One genuine defect (aliases, D1) is a recorded known finding. Invocation counts and pointer identity are not decided.",
             "DESIGN.md §4 C01"),
     "C02": ("static analysis: who-may-write the scoped cache and isolation of caches, cache-lookup dominance in the scoped clause, must-pass-through of setInstance, initializer-pass counting, atomicity idiom check, lifetime-validation rules",
@@ -36,7 +36,7 @@ CLAIMED = {
     "C08": ("static analysis: dominance of the presence check, condition-fact analysis (with predicate summaries of boolean helpers) of its error exit, ordering of root-scope initializers after eager creation",
             "Both directions are decided structurally: the rejection direction as an unconditional, lifetime-independent membership test by (Type, Key); the acceptance direction as facts that must hold at the error exit (non-optional, non-group, not a built-in).",
             "DESIGN.md §4 C08"),
-    "C16": ("static analysis: event dataflow (must and may) on the per-request function of each integration with branch-edge facts, sibling comparison across the five, source-level framework lemma for fasthttp, record confinement",
+    "C16": ("static analysis: interprocedural event dataflow (must and may, result-sensitive helper summaries) on the per-request function of each integration with branch-edge facts, sibling comparison across the five, package-state census, source-level framework lemma for fasthttp, record confinement",
             "Every exit path of the per-request function is covered, which no finite request sequence can do: creation failure, middleware failure at any position, normal return, and (through the deferred close or the fasthttp lemma) panics.",
             "DESIGN.md §4 C16"),
     "C17": ("static analysis: three-view write consistency, duplicate-test dominance with the infallible-insert idiom, may-analysis of error exits after registry writes, freshness of containers handed to the provider, lockset on the collection",
@@ -45,7 +45,7 @@ CLAIMED = {
     "C18": ("static analysis: exact-value check of the built-in switch, resolver-operand check, reaching-definition analysis of the context chain, key-type use census, reserved-test dominance",
             "Scope-correctness of the built-ins and of context linkage is a matter of which expression flows where; that is decided exactly, for all paths, from the source.",
             "DESIGN.md §4 C18"),
-    "C19": ("static analysis: dirty-flag and degree-recomputation must-analysis over every exported mutator, origin-sensitive rollback check, lockset on the graph",
+    "C19": ("static analysis: interprocedural dirty-flag and degree-recomputation must-analysis over every exported mutator, origin-sensitive rollback check (also through lookup-or-create helpers and undo records), in-place reuse and degree-count checks, lockset on the graph",
             "The three clauses the statement singles out (stale caches, degree recomputation, rollback of a rejected add) plus locking are decided on all paths; agreement of the queries with a reference digraph is value-level and explicitly not decided.",
             "DESIGN.md §4 C19"),
     "C09": ("static analysis: must-hold lockset dataflow over go/cfg with interprocedural entry locksets, "
@@ -55,13 +55,13 @@ CLAIMED = {
             "are decided structurally. This covers all interleavings' necessary conditions, which no finite set of "
             "race-detector runs can; it does not decide races in user code or value-level outcomes.",
             "DESIGN.md §4 C09"),
-    "C10": ("static analysis: must-event dataflow over the Close methods' CFGs (gate, drain, cascade), lifetime-switch case regions, who-may-call, path-sensitive ownership of cancel, typestate",
+    "C10": ("static analysis: must-event dataflow over the Close methods' CFGs (gate, drain, cascade), lifetime-restricted control-flow views (switch or if-chain), who-may-call, path-sensitive ownership of cancel, typestate",
             "Decides for every path - not the ones a test drives - that each tracked instance is routed to exactly one owner list, that both Close methods drain a snapshot completely behind a compare-and-swap gate, that failure paths of Build and scope creation dispose what they created, and that nothing else calls Close on container-held instances. Counts of Close calls over histories are not decided.",
             "DESIGN.md §4 C10"),
     "C11": ("static analysis: loop-shape recognition (reverse complete traversal), append-only list discipline, dominance of the child/scope cascade over the owner's disposal loop",
             "Reverse-of-creation order rests on three structural facts that are decided on all paths: one creation-ordered list per owner that is only appended to, disposal loops that run from the last element to the first, and the cascade (children; scopes then root scope) completing before the owner's own loop. The resulting order over all DAGs is not decided.",
             "DESIGN.md §4 C11"),
-    "C12": ("static analysis: CAS-gate dominance, error-accumulation dataflow in the Close methods, result-shape check on branch edges",
+    "C12": ("static analysis: CAS-gate dominance, value-flow graph from every Close() error to the returned DisposalError (through helpers and accumulator types), result-shape check on branch edges, tracking and cancel-ownership dataflow",
             "Completeness under errors and idempotence are decided as path properties of the two Close methods: the gate dominates every effect, no Close() error causes an exit or is dropped, every phase is on every path past the gate, and the DisposalError is returned exactly on the non-empty edge.",
             "DESIGN.md §4 C12"),
     "C13": ("static analysis: entry-check dominance (R-ENTRY) for the 8 API methods, cascade completeness, typestate of tables reset by Close, reaching-definition check of the watcher's context",
@@ -73,7 +73,7 @@ CLAIMED = {
     "C15": ("static analysis: error-chain lints resolved through go/types (Unwrap exhaustiveness, %w, sentinel use, cause preservation), recover dominance, commit-after-validate dataflow, nil-argument dominance, panic/type-assertion census",
             "Classifiability of failures is decided as repository-wide structural rules over every error construction site and every exit of the resolution path; 'not cached' as the absence of any state recorded before a constructor succeeded.",
             "DESIGN.md §4 C15"),
-    "C20": ("static analysis: shape and sibling-agreement checks of NewModule / AddModules / the five module options",
+    "C20": ("static analysis: must/may dataflow on the CFG of the apply loop (nil skip, first failure returns, wrap-once), caller-slice alias check, sibling-agreement of the five module options",
             "Transparency of modules follows from thinness, which is decided exactly: one forward loop over the given builders, nil skipped, first error returned (wrapped exactly once with the module's own name), the caller's slice never written, each option a single forwarded call.",
             "DESIGN.md §4 C20"),
 }
